@@ -77,6 +77,13 @@ Theorem C07_sorted_multiset : forall (T : Type) (zero : T) (eqb : T -> T -> bool
 Proof. exact @sorted_multiset. Qed.
 Print Assumptions C07_sorted_multiset.
 
+(* [Sorted] above is sortedness of adjacent elements. Under a strict weak
+   order it is the same as "no element is less than ANY earlier one". *)
+Theorem C07_sorted_is_strongly_sorted : forall (T : Type) (less : T -> T -> bool), StrictWeakOrder less ->
+  forall l, Sorted (le_of less) l -> StronglySorted (le_of less) l.
+Proof. exact @sorted_strongly. Qed.
+Print Assumptions C07_sorted_is_strongly_sorted.
+
 (* A strict total order consistent with == is in particular a strict weak order. *)
 Theorem C07_total_is_weak : forall (T : Type) (less : T -> T -> bool),
   StrictTotalOrder less -> StrictWeakOrder less.
@@ -143,7 +150,9 @@ Theorem C07_get_exact : forall (T : Type) (s : sorted T) (i : Z),
 Proof. exact @Get_exact. Qed.
 Print Assumptions C07_get_exact.
 
-(* Len is the number of elements. *)
+(* Len is the number of elements. DEFINITIONAL: in the value model Len is
+   [length] of the contents by definition (the proof is eq_refl); it is listed
+   only so that every method of the property appears; it carries no proof content. *)
 Theorem C07_len : forall (T : Type) (s : sorted T), Len s = Z.of_nat (length (String s)).
 Proof. exact (fun T s => eq_refl). Qed.
 Print Assumptions C07_len.
@@ -160,6 +169,9 @@ Theorem C07_removeat_exact : forall (T : Type) (zero : T) (eqb : T -> T -> bool)
 Proof. exact @RemoveAt_exact. Qed.
 Print Assumptions C07_removeat_exact.
 
+(* Note on [Panic IndexOutOfRange]: the kind is a label of the model (Go
+   panics with a formatted string there). The property only says "panics";
+   the correspondence check compares panicked / returned, not the kind. *)
 (* The only calls that panic are Get and RemoveAt with a position outside
    [0,Len); they panic at their first statement (so leave the object alone,
    which is what [step_total] models); every other call returns normally — in
@@ -183,6 +195,10 @@ Theorem C07_hypotheses_satisfiable :
   StrictWeakOrder (fun a b => Z.ltb (a / 4) (b / 4)) /\ stable_spec insertion_sort.
 Proof. exact (conj Z.eqb_eq (conj Z_ltb_sto (conj Z_key_swo insertion_sort_stable_spec))). Qed.
 Print Assumptions C07_hypotheses_satisfiable.
+
+Example C07_strongly_sorted_example :
+  StronglySorted (le_of (fun a b => Z.ltb (a / 4) (b / 4))) [2;1;5;6].
+Proof. apply (sorted_strongly _ Z_key_swo). repeat constructor. Qed.
 
 Example C07_example :
   (do s <- NewSorted 0 insertion_sort [5;3;9;3;1] Z.ltb;
